@@ -1,0 +1,14 @@
+//go:build verif
+
+package memoization
+
+// YieldHook, when set, is called at the internal steps of the memoizer (after an
+// update reset the memoization, after it was forwarded, after a lookup missed,
+// after it fetched) so that a harness can decide which operation moves next.
+var YieldHook func(point string)
+
+func yieldPoint(p string) {
+	if h := YieldHook; h != nil {
+		h(p)
+	}
+}
